@@ -17,7 +17,7 @@ func init() {
 
 func c11r1(r *R) {
 	hl := r.method(mpkg, "Proxy", "handleLoop")
-	ps, complete := enumPaths(hl, 4096, 2)
+	ps, complete := enumPathsInline(hl, 4096, 2, func(c *ssa.Function) bool { return c.Parent() == hl })
 	if !complete {
 		r.undecided("handleLoop#paths", hl.Pos(), "too many paths")
 		return
@@ -38,33 +38,44 @@ func c11r1(r *R) {
 				break
 			}
 		}
-		// epilogue
-		var def []string
-		for _, e := range p.Events {
-			if e.Kind == "call" && strings.HasPrefix(e.Desc, "deferred ") {
-				def = append(def, strings.TrimPrefix(e.Desc, "deferred "))
-			}
-		}
-		ci, di, ri := -1, -1, -1
-		for i, d := range def {
-			switch {
-			case d == "invoke net.Conn.Close($1)":
-				ci = i
-			case d == "(*sync/atomic.Int32).Add($0.connsWg, -1)":
-				di = i
-			case strings.HasPrefix(d, "(*martian.Proxy).handleLoop$"):
+		// epilogue: what runs when the defers run, in order (function literals are walked inline)
+		ri := -1
+		for i, e := range p.Events {
+			if e.Kind == "rundefers" {
 				ri = i
 			}
 		}
-		if ci < 0 || di < 0 || ri < 0 {
-			bad["an exit path does not close, un-count and un-register the connection: "+strings.Join(def, "; ")] = true
+		if ri < 0 {
+			bad["an exit path runs no deferred clean-up"] = true
+			continue
+		}
+		ci, di, li, xi := -1, -1, -1, -1
+		for i := ri; i < len(p.Events); i++ {
+			e := p.Events[i]
+			d := strings.TrimPrefix(e.Desc, "deferred ")
+			switch {
+			case e.Kind == "call" && d == "invoke net.Conn.Close($1)":
+				ci = i
+			case e.Kind == "call" && d == "(*sync/atomic.Int32).Add($0.connsWg, -1)":
+				di = i
+			case e.Kind == "call" && d == "(*sync.Mutex).Lock($0.connsMu)" && li < 0:
+				li = i
+			case e.Kind == "call" && d == "builtin delete($0.conns, $1)":
+				xi = i
+			}
+		}
+		if ci < 0 || di < 0 || xi < 0 || li < 0 {
+			bad["an exit path does not close, un-count and un-register the connection"] = true
 			continue
 		}
 		if !(ci < di) {
 			bad["the open-connection count is decremented before the connection is closed: Shutdown may report success while the socket is still open"] = true
 		}
-		if !(di < ri) {
-			bad["the count is decremented after the locked removal: Shutdown holds connsMu while it waits for zero, so it would never see this connection finish"] = true
+		if !(di < li) {
+			bad["the count is decremented behind the connection-set lock: Shutdown holds connsMu while it waits for zero, so it would never see this connection finish"] = true
+		}
+		if !(li < xi) {
+			bad["the connection is removed from the set without connsMu"] = true
 		}
 	}
 	var why []string
@@ -74,13 +85,20 @@ func c11r1(r *R) {
 	r.check(n >= 4 && len(why) == 0, "handleLoop#register-close-uncount-unregister", hl.Pos(), fmt.Sprintf("all %d exits: Close → Add(-1) → locked delete; registration first", n), strings.Join(why, "; "))
 	// the removal closure
 	for _, lit := range hl.AnonFuncs {
-		lp, _ := enumPaths(lit, 8, 1)
-		good := len(lp) == 1
-		if good {
-			ev := lp[0].effects()
-			good = len(ev) == 3 && strings.HasPrefix(ev[0], "(*sync.Mutex).Lock(") && strings.HasPrefix(ev[1], "builtin delete(") && strings.HasPrefix(ev[2], "(*sync.Mutex).Unlock(")
-		}
-		r.check(good, "handleLoop$removal", lit.Pos(), "lock, delete(conns, conn), unlock - nothing else", "the deferred removal does more than delete under the lock (anything waiting here waits for Shutdown to return)")
+		// while connsMu is held inside a deferred literal only the removal may happen
+		ls := lockset(lit)
+		good := true
+		eachInstr(lit, func(ins ssa.Instruction) {
+			c, ok := ins.(*ssa.Call)
+			if !ok || !holdsSuffix(ls[ins], ".connsMu") {
+				return
+			}
+			cn := calleeName(c.Common())
+			if cn != "builtin delete" && cn != "(*sync.Mutex).Unlock" {
+				good = false
+			}
+		})
+		r.check(good, "handleLoop$removal", lit.Pos(), "under connsMu only delete(conns, conn)", "the deferred clean-up does more than the removal while holding connsMu (anything done here waits for Shutdown to return)")
 	}
 	// no peer-dependent call while the proxy-wide lock is held, in handleLoop and the helpers it calls
 	fns := []*ssa.Function{hl}
